@@ -545,4 +545,4 @@ THEOREMS = THEOREMS + ["OdxVerif.Codec." + t for t in [
     "C01_roundtrip_nested2R", "C01_roundtrip_nested2R_whole", "C01_roundtrip_nested2R_of_desc2", "C01_nrcconst_alone_not_decodable",
     "descs2R_roundtrip_msg_cur", "Desc2R.okM", "Desc2R.decPre_of", "Descs2R.decPre_top", "Descs2R.okAllTop",
     "Comp.ofU16LE_ok", "U16.encodeParam_eq", "U16.decodeParam_eq", "Comp.ofU16LE_val",
-    "exRes_ok", "exRes_wire", "exRes_enc", "exResOverlap_ok", "exNrc_ok", "exU16Req_ok", "exU16Req_enc"]]
+    "exRes_ok", "exRes_wire", "exRes_enc", "exResOverlap_ok", "exNrcR_ok", "exU16Req_ok", "exU16Req_enc"]]
